@@ -124,7 +124,9 @@ func runC13(tier string, seed uint64) {
 		nseq, length = 800, 30
 	}
 	b := singleBucketName
+	length0 := length
 	for i := 0; i < nseq; i++ {
+		length = length0
 		s := newSess("c13", "mem", SessOpts{})
 		s.MkBucket(b)
 		keys := []string{"k", "j", "p/q", "p/r", "z"}[:2+rng.Intn(4)]
@@ -134,6 +136,24 @@ func runC13(tier string, seed uint64) {
 		mode := rng.Intn(6) // 0: never versioned, 1: enabled from the start, 2,3: mixed, 4: enabled, suspended before listing, 5: mixed, suspended before listing
 		if mode == 1 || mode == 4 {
 			s.SetVersioning(b, true)
+		}
+		if i%5 == 4 {
+			// a fixed opening: versions written while enabled, then hidden by deletes made while suspended
+			// (delete markers that are "null" versions), twice over for one key, and a null version
+			// written over an enabled-era one; the history goes on from there
+			mode = 5
+			s.SetVersioning(b, true)
+			s.Put(b, keys[0], []byte("enabled-era 1"), nil)
+			s.Put(b, keys[1], []byte("enabled-era other"), nil)
+			s.SetVersioning(b, false)
+			s.Delete(b, keys[0])
+			s.Put(b, keys[1], []byte("written while suspended"), nil)
+			s.SetVersioning(b, true)
+			s.Put(b, keys[0], []byte("enabled-era 2"), nil)
+			s.SetVersioning(b, false)
+			s.Delete(b, keys[0])
+			s.Delete(b, keys[1])
+			length = 6
 		}
 		for j := 0; j < length; j++ {
 			if mode == 2 || mode == 3 || mode == 5 {
@@ -160,6 +180,16 @@ func runC13(tier string, seed uint64) {
 		full := s.ListVersions(b, "", "", "", "", -1)
 		for _, k := range keys {
 			s.Get(b, k, "")
+		}
+		// ... and every entry is addressable by the id it is listed with: that id reads this version (or
+		// answers for this delete marker), not another one
+		if s.everEnabled {
+			for _, e := range full.Entries {
+				s.Get(b, e.Key, e.ID)
+				if !e.Marker {
+					s.Head(b, e.Key, e.ID)
+				}
+			}
 		}
 		n := len(full.Entries)
 		for _, pd := range [][2]string{{"", ""}, {"p", ""}, {"", "/"}, {"p/", "/"}} {
